@@ -36,6 +36,45 @@ func (c CollectionEvent) Name() string {
 	return PubSubCollectionEventName
 }
 
+// UnmarshalXML restores the associate / disassociate child, which is held in an interface field
+// that encoding/xml cannot fill on its own.
+func (c *CollectionEvent) UnmarshalXML(d *xml.Decoder, start xml.StartElement) error {
+	c.XMLName = start.Name
+	for _, attr := range start.Attr {
+		if attr.Name.Local == "node" {
+			c.Node = attr.Value
+		}
+	}
+	for {
+		t, err := d.Token()
+		if err != nil {
+			return err
+		}
+		switch tt := t.(type) {
+		case xml.StartElement:
+			switch tt.Name.Local {
+			case "associate":
+				a := AssociateEvent{}
+				err = d.DecodeElement(&a, &tt)
+				c.AssocDisassoc = &a
+			case "disassociate":
+				a := DisassociateEvent{}
+				err = d.DecodeElement(&a, &tt)
+				c.AssocDisassoc = &a
+			default:
+				err = d.Skip()
+			}
+			if err != nil {
+				return err
+			}
+		case xml.EndElement:
+			if tt == start.End() {
+				return nil
+			}
+		}
+	}
+}
+
 // *********************
 // Associate/Disassociate
 // *********************
